@@ -104,7 +104,7 @@ fn hostile_integrity() -> impl Strategy<Value = Option<String>> {
     ]
 }
 
-fn hostile_rec(nkeys: usize) -> impl Strategy<Value = HostileRec> {
+pub fn hostile_rec(nkeys: usize) -> impl Strategy<Value = HostileRec> {
     (
         0..nkeys,
         0..nkeys,
@@ -127,7 +127,7 @@ fn hostile_rec(nkeys: usize) -> impl Strategy<Value = HostileRec> {
         .prop_map(|(bucket_of, key, integrity, time, size, metadata, raw)| HostileRec { bucket_of, key, integrity, time, size, metadata, raw })
 }
 
-fn plant(ctx: &Ctx, r: &HostileRec) {
+pub fn plant(ctx: &Ctx, r: &HostileRec) {
     let p = reffmt::bucket_path(&ctx.cache, ctx.key(r.bucket_of % ctx.keys.len()));
     let rec = Rec {
         key: ctx.key(r.key % ctx.keys.len()).to_string(),
@@ -209,7 +209,17 @@ impl Engine for C20 {
         let c13e = c13::C13;
         let c04e = c04::C04;
         prop_oneof![
-            8 => (basic::program(cfg(tier)), prop_oneof![6 => Just(Root::Dir), 1 => Just(Root::Missing), 1 => Just(Root::File)]).prop_map(|(prog, root)| Case::Program { prog, root }),
+            8 => (basic::program(cfg(tier)), prop_oneof![6 => Just(Root::Dir), 1 => Just(Root::Missing), 1 => Just(Root::File)], any::<u8>()).prop_map(|(mut prog, root, r)| {
+                // sometimes a bucket file is replaced by a directory instead of being damaged
+                if r % 3 == 0 {
+                    for s in prog.steps.iter_mut() {
+                        if let Op::DamageBucket { dmg, .. } = &mut s.op {
+                            *dmg = BDamage::BecomeDir;
+                        }
+                    }
+                }
+                Case::Program { prog, root }
+            }),
             4 => (basic::program(cfg(tier)), vec(hostile_rec(5), 1..5)).prop_map(|(prog, recs)| Case::Hostile { recs, prog }),
             1 => c13e.strategy(tier).prop_map(Case::Fault),
             1 => c04e.strategy(tier).prop_map(Case::Crash),
@@ -240,6 +250,22 @@ impl Engine for C20 {
             Some("sha256-47DEQpj8HBSa-_TImW-5JCeuQeRkm5NMpJWZG3hSuFU".into()),
         ];
         let mut out = Vec::new();
+        for fl0 in [Fl::Sync, Fl::Async] {
+            // a directory sits where the bucket file of an existing key should be
+            let mut steps = vec![Step { op: Op::Write(WriteSpec::simple(Some(0), 1)), fl: fl0 }, Step { op: Op::DamageBucket { key: 0, dmg: BDamage::BecomeDir }, fl: Fl::Sync }];
+            for fl in [Fl::Sync, Fl::Async] {
+                steps.push(Step { op: Op::Meta { key: 0 }, fl });
+                steps.push(Step { op: Op::Read { key: 0 }, fl });
+                steps.push(Step { op: Op::Stream { by: By::Key(0), bufs: vec![] }, fl });
+                steps.push(Step { op: Op::Extract { kind: XKind::Copy, checked: true, by: By::Key(0), dest: Dest::Absent }, fl });
+                steps.push(Step { op: Op::Extract { kind: XKind::HardLink, checked: true, by: By::Key(0), dest: Dest::Absent }, fl });
+                steps.push(Step { op: Op::List, fl });
+                steps.push(Step { op: Op::Remove { key: 0 }, fl });
+                steps.push(Step { op: Op::RemoveOpts { key: 0, fully: true }, fl });
+                steps.push(Step { op: Op::Write(WriteSpec::simple(Some(0), 0)), fl });
+            }
+            out.push(Case::Program { prog: Program { keys: keys.clone(), blobs: blobs.clone(), steps }, root: Root::Dir });
+        }
         for (n, i) in ints.into_iter().enumerate() {
             let mut steps = Vec::new();
             for fl in [Fl::Sync, Fl::Async] {
